@@ -16,7 +16,12 @@ def run(family, sub, tier, s0, n, jobs, env=None):
     for p in procs:
         for l in p.stdout:
             if l.startswith("{"):
-                r = json.loads(l); out[r["seed"]] = (r.get("verdict"), r.get("sig"), r.get("hash"), r.get("sched"), r.get("simtime_us"), json.dumps(r.get("stats"), sort_keys=True))
+                r = json.loads(l)
+                # env family: nanoc runs shadow tests in its interpreter, whose GC probes tables keyed by pointer value; the
+                # number of basic blocks executed (not the output, not the schedule: one task, no preemption) then varies
+                # with the heap addresses the worker process happens to hand out, i.e. with the worker's earlier runs
+                if family == "env" and r.get("stats"): r["stats"].pop("blocks", None)
+                out[r["seed"]] = (r.get("verdict"), r.get("sig"), r.get("hash"), r.get("sched"), r.get("simtime_us"), json.dumps(r.get("stats"), sort_keys=True))
         p.wait()
     return out
 family, sub, n = sys.argv[1], sys.argv[2], int(sys.argv[3])
